@@ -25,13 +25,15 @@ m = {
                            "model runner, line-by-line comparison; implementation-side property oracles give the replay"},
     ],
     "checks": [],
-    "not_applicable": NOT_APPLICABLE,
+    "not_applicable": [n for n in NOT_APPLICABLE if not (n["property_id"] in PROPS and PROPS[n["property_id"]]["theorems"])],
     "notes": "All checks: ./check <id>; tier from --tier or VERIF_TIER, seed from VERIF_SEED. A broken proof, audit, "
              "translator anchor or model/implementation disagreement without a concrete failing input is reported as "
              "VIOLATION ... no-failing-input-found. known_findings.json lists recorded and fixed findings.",
 }
 for pid in sorted(PROPS):
     p = PROPS[pid]
+    if not p["theorems"]:
+        continue
     m["checks"].append({
         "property_id": pid,
         "quick_cmd": f"./check {pid} --tier quick",
